@@ -668,7 +668,7 @@ func (r *runner) recoverStages(acked uint64, res *recoverLine) *stageError {
 	}
 
 	// 2. published restore outputs are sound (checked on a copy).
-	for _, name := range []string{"restored.db", "restored2.db"} {
+	for _, name := range []string{"restored.db", "restored2.db", "restored3.db"} {
 		out := r.outPath(name)
 		if _, err := os.Stat(out); err != nil {
 			continue
@@ -812,7 +812,7 @@ func Main(args []string) int {
 
 	scenarios := map[string]func(){
 		"basic": r.scBasic, "compact": r.scCompact, "restore": r.scRestore,
-		"follow": r.scFollow, "behind": r.scBehind, "reopen": r.scReopen,
+		"follow": r.scFollow, "behind": r.scBehind, "reopen": r.scReopen, "restorev3": r.scRestoreV3,
 	}
 
 	defer func() {
